@@ -574,6 +574,11 @@ def gen_discinfo(rng, force=None):
         desc = rng.choice(['Fedora "20"', '"Fedora" 20', "Fedora's", "'tis Fedora", 'x"', "'x"])
     if force == "description-hostile":
         desc = rng.choice(["a,b", "1,2,3", "ALL", "x\ty", "é日本", "100%", "[x]", "#x", "a = b"])
+    # the quantifier excludes descriptions WRAPPED in quotes (a pair of the same quote character around the whole text)
+    while len(desc) >= 2 and desc[0] == desc[-1] and desc[0] in "\"'":
+        desc = desc[1:] + "x"
+    if desc in ("\"", "'"):
+        desc = "q" + desc
     arch = rng.choice(TREE_ARCHES + ["src", "ppc64", "noarch", "arm arch"])
     if rng.random() < 0.4 or force == "disc-all":
         discs = ["ALL"]
